@@ -13,6 +13,7 @@ package vsched
 import (
 	"context"
 	"fmt"
+	"os"
 	"runtime"
 	"sort"
 	"strings"
@@ -88,6 +89,7 @@ type Sched struct {
 	expect   []Decision // decisions of the parent execution for the divergence check (may be shorter than prefix)
 	trace    Trace
 	aborted  bool
+	solo     bool // the root goroutine is running harness code (setup / finish); no thread is running
 	maxSteps int
 	delay    bool // delay-bounded cost model
 	start    time.Time
@@ -125,17 +127,29 @@ func getGID() uint64 {
 }
 
 // Self returns the current scheduler and the calling thread (nil, nil in free mode; s, nil for the root).
+//
+// Exactly one registered thread runs between two scheduling points, so the calling thread is the one the scheduler
+// resumed last; the only code that runs concurrently with it is the glue between a natively blocked channel
+// operation completing and its Post hook, which carries its thread as a token instead of calling Self.
+// With VERIF_CHECKGID=1 the assumption is verified on every call through the goroutine id.
 func Self() (*Sched, *Thread) {
 	s := cur
 	if s == nil || s.aborted {
 		return nil, nil
 	}
-	g := getGID()
-	s.mu.Lock()
-	t := s.byGid[g]
-	s.mu.Unlock()
+	if s.solo {
+		return s, nil
+	}
+	t := s.running
+	if checkGID && t != nil {
+		if g := getGID(); g != t.gid {
+			panic(fmt.Sprintf("vsched: hook called by goroutine %d while thread %s (goroutine %d) is the running thread", g, t.Name, t.gid))
+		}
+	}
 	return s, t
 }
+
+var checkGID = os.Getenv("VERIF_CHECKGID") != ""
 
 func (s *Sched) notify() {
 	select {
@@ -196,33 +210,36 @@ func ParkUntil(ready func() bool, what string) {
 }
 
 // Pre is placed before an instrumented channel operation / sleep: scheduling point, then the thread may block natively.
-func Pre(site string) {
+// It returns the thread as a token for Post.
+func Pre(site string) *Thread {
 	s, t := Self()
 	if t == nil {
-		return
+		return nil
 	}
 	t.park(s, callerPC(2), site)
 	if t.atomic == 0 {
 		t.state = stNative
 		t.siteS = site
 	}
+	return t
 }
 
 // Enter marks the thread as possibly natively blocked without a scheduling point (used inside rewritten selects).
-func Enter(site string) {
+func Enter(site string) *Thread {
 	_, t := Self()
 	if t == nil || t.atomic > 0 {
-		return
+		return t
 	}
 	t.state = stNative
 	t.siteS = site
+	return t
 }
 
 // Post is placed after an instrumented channel operation: if the thread had been natively blocked (and was woken by
 // another thread's operation or by the clock) it parks, so that still only one thread runs.
-func Post(site string) {
-	s, t := Self()
-	if t == nil || t.atomic > 0 {
+func Post(t *Thread, site string) {
+	s := cur
+	if t == nil || s == nil || s.aborted || t.atomic > 0 {
 		return
 	}
 	if t.blocked {
@@ -331,9 +348,6 @@ func GoNamed(name string, f func()) {
 	registered := make(chan struct{})
 	go func() {
 		t.gid = getGID()
-		s.mu.Lock()
-		s.byGid[t.gid] = t
-		s.mu.Unlock()
 		close(registered)
 		defer func() {
 			if r := recover(); r != nil {
@@ -362,9 +376,9 @@ func WithCancel(parent context.Context) (context.Context, context.CancelFunc) {
 
 // Sleep is time.Sleep under the scheduler.
 func Sleep(d time.Duration) {
-	Pre("sleep")
+	t := Pre("sleep")
 	time.Sleep(d)
-	Post("sleep")
+	Post(t, "sleep")
 }
 
 func pcString(pc uintptr) string {
@@ -431,8 +445,12 @@ func Run(t *testing.T, opts Options, setup func(s *Sched), finish func(s *Sched,
 		s.wake = make(chan struct{}, 1) // must be created inside the bubble (blocking on it has to be durable)
 		cur = s
 		s.start = time.Now()
+		s.solo = true
 		setup(s)
+		s.solo = false
 		s.loop(horizon)
+		s.solo = true
+		s.running = nil
 		if finish != nil {
 			finish(s, &s.trace)
 		}
@@ -482,13 +500,13 @@ func (s *Sched) loop(horizon time.Duration) {
 			}
 		}
 		if allDone {
-			if s.OnQuiescent != nil && s.OnQuiescent() {
+			if s.quiescent() {
 				continue
 			}
 			return
 		}
 		if len(enabled) == 0 {
-			if s.OnQuiescent != nil && s.OnQuiescent() {
+			if s.quiescent() {
 				continue
 			}
 			if anyNative {
@@ -535,6 +553,15 @@ func (s *Sched) loop(horizon time.Duration) {
 		t.state = stRunning
 		t.resume <- struct{}{}
 	}
+}
+
+func (s *Sched) quiescent() bool {
+	if s.OnQuiescent == nil {
+		return false
+	}
+	s.solo = true
+	defer func() { s.solo = false }()
+	return s.OnQuiescent()
 }
 
 func firstStackOf(all string, gid uint64) string {
